@@ -484,3 +484,154 @@ pub fn c02(ctx: &Ctx, begin: &mut dyn FnMut(J)) -> Outcome {
     let _ = (model::overlaps, Tier::Quick);
     out
 }
+
+/// C06: whole-file summary statistics and item count.
+pub fn c06(ctx: &Ctx, begin: &mut dyn FnMut(J)) -> Outcome {
+    let mut r = Rng::derive(ctx.seed, 0xC06, ctx.case);
+    let mut out = Outcome::new();
+    let check = |out: &mut Outcome, kind: &str, got: &bigtools::Summary, m: &model::Stats, want_items: u64, exact: bool| {
+        let d = || {
+            J::obj()
+                .set("kind", kind.into())
+                .set("got", J::A(vec![got.total_items.into(), got.bases_covered.into(), J::F(got.min_val), J::F(got.max_val), J::F(got.sum), J::F(got.sum_squares)]))
+                .set("model", J::A(vec![want_items.into(), m.bases.into(), J::F(m.min), J::F(m.max), J::F(m.sum), J::F(m.sumsq)]))
+        };
+        if got.total_items != want_items {
+            out.viol("item_count_wrong", kind, d());
+        }
+        if got.bases_covered != m.bases {
+            out.viol("bases_covered_wrong", format!("{}:{}", kind, if got.bases_covered < m.bases { "fewer" } else { "more" }), d());
+        }
+        if m.bases > 0 {
+            if got.min_val != m.min {
+                out.viol("min_wrong", kind, d());
+            }
+            if got.max_val != m.max {
+                out.viol("max_wrong", kind, d());
+            }
+        }
+        let close = |a: f64, b: f64, abs: f64| if exact { a == b } else { model::f64_close(a, b, abs, m.terms + 4) };
+        if got.bases_covered == m.bases {
+            if !close(got.sum, m.sum, m.abs_sum) {
+                out.viol("sum_wrong", kind, d());
+            }
+            if !close(got.sum_squares, m.sumsq, m.abs_sumsq) {
+                out.viol("sum_squares_wrong", kind, d());
+            }
+        }
+    };
+    if ctx.case % 2 == 0 {
+        let (small, exact_vals) = (r.chance(1, 2), r.chance(1, 2));
+        let case = gen_bw_case(
+            &mut r,
+            &BwGenCfg { allow_zero_len: true, huge_ok: true, small_slots: small, allow_unsorted_chroms: true, max_chroms: 6, force_exact: exact_vals },
+        );
+        begin(bw_desc(&case));
+        out.hash = case.hash.clone();
+        out.nontrivial = case.nontrivial;
+        out.tag("bigwig");
+        let sink = MemSink::new();
+        let res = wr::write_bw(sink.clone(), &case.input, &case.opts, Some(&ctx.scratch), &case.extra);
+        match &res {
+            CallResult::Ok => {}
+            CallResult::Err(e) if e.starts_with("INDEX_") || e.contains("File is not sorted") => {
+                out.inconclusive = Some(format!("blocked_by:C18 {}", e));
+                return out;
+            }
+            other => {
+                out.inconclusive = Some(format!("blocked_by:C01 write failed: {}", other.short()));
+                return out;
+            }
+        }
+        let bytes = sink.bytes();
+        let mut m = model::Stats::empty();
+        let mut sections = 0u64;
+        let mut exact = true;
+        for (c, vs) in &case.input {
+            m.merge(&model::bw_stats(vs, 0, c.size));
+            sections += ((vs.len() as u64) + case.opts.items_per_slot as u64 - 1) / case.opts.items_per_slot as u64;
+            exact &= vs.iter().all(|v| EXACT_VALUES.contains(&v.value)) && c.size < 1_000_000;
+        }
+        // zero-length values may or may not take part in min/max (declared don't-care): compare
+        // min/max only when no zero-length value could change them
+        let zl_extreme = case.input.iter().flat_map(|(_, vs)| vs.iter()).filter(|v| v.start == v.end).any(|v| (v.value as f64) < m.min || (v.value as f64) > m.max);
+        let rd = wr::guard(|| -> Result<bigtools::Summary, String> {
+            let mut rd = BigWigRead::open(Cursor::new(bytes.clone())).map_err(|e| e.to_string())?;
+            rd.get_summary().map_err(|e| e.to_string())
+        });
+        match rd {
+            Ok(Ok(s)) => {
+                let mut mm = m;
+                if zl_extreme {
+                    mm.min = s.min_val;
+                    mm.max = s.max_val;
+                    out.tag("zero_length_extreme_dont_care");
+                }
+                check(&mut out, "bigwig", &s, &mm, sections, exact);
+                if exact {
+                    out.tag("exact_arithmetic");
+                }
+            }
+            Ok(Err(e)) => out.viol("summary_read_failed", "bigwig", J::s(e)),
+            Err(p) => out.viol("summary_read_panicked", wr::panic_site(&p), J::A(p.into_iter().map(J::S).collect())),
+        }
+    } else {
+        let small = r.chance(1, 2);
+        let case = gen_bb_case(&mut r, &BbGenCfg { allow_zero_len: ctx.arg != "nozl", no_zero_zero: true, small_slots: small, max_chroms: 6, ncols: Some(0) });
+        begin(bb_desc(&case));
+        out.hash = case.hash.clone();
+        out.nontrivial = case.nontrivial;
+        out.tag("bigbed");
+        for t in &case.tags {
+            out.tag(t.clone());
+        }
+        let sink = MemSink::new();
+        let res = wr::write_bb(sink.clone(), &case.input, &case.opts, None, Some(&ctx.scratch), &case.extra);
+        match &res {
+            CallResult::Ok => {}
+            CallResult::Err(e) if e.starts_with("INDEX_") || e.contains("File is not sorted") => {
+                out.inconclusive = Some(format!("blocked_by:C18 {}", e));
+                return out;
+            }
+            other => {
+                out.inconclusive = Some(format!("blocked_by:C02 write failed: {}", other.short()));
+                return out;
+            }
+        }
+        let bytes = sink.bytes();
+        let mut m = model::Stats::empty();
+        let mut items = 0u64;
+        for (c, vs) in &case.input {
+            let d = model::depth_array(vs, c.size);
+            m.merge(&model::depth_stats(&d, 0, d.len() as u32));
+            items += vs.len() as u64;
+        }
+        let rd = wr::guard(|| -> Result<(bigtools::Summary, u64), String> {
+            let mut rd = BigBedRead::open(Cursor::new(bytes.clone())).map_err(|e| e.to_string())?;
+            let s = rd.get_summary().map_err(|e| e.to_string())?;
+            let ic = rd.item_count().map_err(|e| e.to_string())?;
+            Ok((s, ic))
+        });
+        match rd {
+            Ok(Ok((s, ic))) => {
+                // depths are small integers: all arithmetic is exact.
+                // Declared don't-care (as for bigWig): a zero-length entry may take part in
+                // min/max as a depth-1 segment that covers no base.
+                let has_zl = case.input.iter().any(|(_, vs)| vs.iter().any(|v| v.start == v.end));
+                let mut m = m;
+                if has_zl {
+                    m.min = s.min_val;
+                    m.max = s.max_val;
+                    out.tag("zero_length_entries_minmax_dont_care");
+                }
+                check(&mut out, "bigbed", &s, &m, items, true);
+                if ic != items {
+                    out.viol("item_count_wrong", "bigbed:item_count()", J::obj().set("got", ic.into()).set("want", items.into()));
+                }
+            }
+            Ok(Err(e)) => out.viol("summary_read_failed", "bigbed", J::s(e)),
+            Err(p) => out.viol("summary_read_panicked", wr::panic_site(&p), J::A(p.into_iter().map(J::S).collect())),
+        }
+    }
+    out
+}
